@@ -1083,8 +1083,39 @@ Proof.
     apply (filter_adopters_in t root o m0 P). rewrite Ef. now left.
 Qed.
 
-Definition excluded_by (xs : option (list pattern)) (k : str) : bool :=
-  existsb (fun p => pat_match p k) (match xs with Some l => l | None => [] end).
+Definition excluded_by (xs : option (list xentry)) (k : str) : bool :=
+  existsb (fun e => entry_match e k) (match xs with Some l => l | None => [] end).
+
+(* a sub-package is excluded iff SOME entry of the list, matched on its own, matches its path *)
+Lemma exclude_spec c k :
+  exclude c k = true <->
+  exists l e, c_exsub c = Some l /\ In e l /\ entry_match e k = true.
+Proof.
+  unfold exclude. destruct (c_exsub c) as [l|]; simpl.
+  - rewrite existsb_exists. split.
+    + intros (e & H1 & H2). exists l, e. auto.
+    + intros (l' & e & E & H1 & H2). injection E as <-. eauto.
+  - split; [discriminate | intros (l & e & E & _); discriminate].
+Qed.
+
+(* what an entry matches: Go's unanchored search, on the path itself or, under (?i), on some case
+   variant of the matched part (expressions without negated classes; see Lib/Regex.v) *)
+Lemma entry_match_spec e k :
+  no_neg_class (p_body (x_pat e)) = true ->
+  (entry_match e k = true <->
+   exists a b c, k = a ++ b ++ c /\
+     (exists b', lang (p_body (x_pat e)) b' /\ (if x_fold e then variants b' b else b' = b)) /\
+     (p_bos (x_pat e) = true -> a = []) /\ (p_eos (x_pat e) = true -> c = [])).
+Proof.
+  intros NN. unfold entry_match, pat_match_fold. rewrite pat_match_spec. unfold pat_matches.
+  destruct (x_fold e); simpl.
+  - split; intros (a & b & c & -> & H & Ha & Hc); exists a, b, c; repeat split; auto.
+    + now apply fold_regex_spec.
+    + apply fold_regex_spec; assumption.
+  - split; intros (a & b & c & -> & H & Ha & Hc); exists a, b, c; repeat split; auto.
+    + eauto.
+    + destruct H as (b' & L & ->). exact L.
+Qed.
 
 Lemma adopter_uniform t m1 xs r k :
   c_exsub (cfg_of m1 r) = xs ->
